@@ -27,6 +27,11 @@ FINDER = "black_it.samplers.base:BaseSampler.find_and_get_duplicates"
 
 
 def run(ctx: Context) -> None:
+    ctx.rule(sample_rules)
+    ctx.rule(finder_rules)
+
+
+def sample_rules(ctx: Context) -> None:
     prog = ctx.prog
     f = ctx.func(SAMPLE)
     g = CFG(f.node)
@@ -127,7 +132,6 @@ def run(ctx: Context) -> None:
             ok = all(n.canon(t.ast) in zero_forms or (isinstance(t.ast, ast.Name) and t.ast.id == dup) for t, _ in deps)
             ctx.check(ok, "D4.every-pass", "BaseSampler.sample:redraw-guard", "a pass with repeats always redraws",
                       f"the redraw is additionally guarded by {[src(t.ast) for t, _ in deps]}", f, c)
-    finder_rules(ctx)
 
 
 def finder_rules(ctx: Context) -> None:
